@@ -55,6 +55,21 @@ fn one(s: &mut Sink, c: &Case, ring: RingTag, h: i64, t: i64, red: bool, bigr: b
         if threads == 0 { run_kh(&l2, ring, h, t, red, bigr) }
         else { rayon::ThreadPoolBuilder::new().num_threads(threads).build().unwrap().install(|| run_kh(&l2, ring, h, t, red, bigr)) }
     });
+    // the engine's elimination order follows randomly seeded hash maps: over rings whose units are not all self-inverse
+    // build the same case again and require the same table ("does not depend on which elimination steps were taken")
+    if matches!(ring, RingTag::Q | RingTag::F3) && l.crossing_num() >= 5 {
+        if let Some(Some(first)) = &got {
+            for rep in 0..2 {
+                let l3 = l.clone();
+                let again = guard_timeout(120, move || run_kh(&l3, ring, h, t, red, bigr));
+                if let Some(Some(tbl)) = again {
+                    s.oracle(&tbl == first, "the reported homology does not depend on the elimination order (same input, repeated build)",
+                        &format!("{} [{} ring={:?} rebuild#{}]", req, c.name, ring, rep + 1), &format!("{} vs {}", first, tbl));
+                }
+            }
+            s.count("rebuilds");
+        }
+    }
     let reply = match (signs, got) {
         (Some(sg), Some(Some(tbl))) => format!("signs={} {}", sg, tbl),
         (_, None) => "timeout".to_string(),
